@@ -23,6 +23,7 @@ import (
 	"github.com/cockroachdb/pebble/verifsim/simrt"
 	"github.com/cockroachdb/pebble/verifsim/simsync"
 	"github.com/cockroachdb/pebble/vfs"
+	"github.com/cockroachdb/pebble/wal"
 )
 
 var (
@@ -84,8 +85,10 @@ type dbHarness struct {
 	nCkpt       int
 	fmvFloors   []fmvFloor // completed ratchets of the current segment
 	fmvSegStart int        // version at the start of the current segment
+	fmvCarried  int        // version a previous incarnation had reported (so: durable before this segment's first mutation)
 	fmvMax      int        // highest version ever requested
 	durScans    []durScan  // OnlyReadGuaranteedDurable scans of the current segment
+	extraForks  []int      // crash-fork points requested by monitors (current segment)
 	levelsEach  bool
 	closeEach   bool
 
@@ -102,6 +105,7 @@ type dbHarness struct {
 	faultsArmed   bool
 	faultsStopped bool
 	rotInc        *simrt.Inc // side incarnation reading a damaged copy (C27)
+	delays        int
 	opening       bool // pebble.Open of the current incarnation is running
 	openFailed    bool // ... has returned an error
 }
@@ -154,6 +158,7 @@ func (e *dbEngine) Execute(t *testing.T, plan *Plan, res *Result) {
 		res.Stats["groups"] = int64(h.model.Len())
 	}
 	res.Stats["ops"] = int64(h.pc)
+	res.Stats["fs.delays"] += int64(h.delays)
 	if traceFile != "" {
 		writeTrace(h.sim)
 	}
@@ -162,6 +167,8 @@ func (e *dbEngine) Execute(t *testing.T, plan *Plan, res *Result) {
 	switch plan.Profile {
 	case "iofault":
 		res.Nontrivial = res.Nontrivial && res.Stats["faults_fired"] > 0
+	case "failover":
+		res.Nontrivial = res.Nontrivial && (res.Stats["faults_fired"] > 0)
 	case "corrupt":
 		res.Nontrivial = res.Stats["rot.variants"] > 0 && res.Stats["groups"] > 5
 	}
@@ -283,6 +290,17 @@ func (h *dbHarness) makeOptionsOn(disk *simfs.Disk) *pebble.Options {
 			return pebble.ValueSeparationPolicy{Enabled: true, MinimumSize: min, MinimumMVCCGarbageSize: min, MaxBlobReferenceDepth: 5, RewriteMinimumAge: 0, GarbageRatioLowPriority: 0.1, GarbageRatioHighPriority: 0.3}
 		}
 	}
+	if c.WALFailover {
+		fo := &pebble.WALFailoverOptions{Secondary: wal.Dir{FS: disk, Dirname: "wal2"}}
+		thr := time.Duration(c.FailoverThreshUs) * time.Microsecond
+		fo.UnhealthySamplingInterval = thr / 4
+		fo.UnhealthyOperationLatencyThreshold = func() (time.Duration, bool) { return thr, true }
+		fo.PrimaryDirProbeInterval = 5 * thr
+		fo.HealthyProbeLatencyThreshold = thr / 2
+		fo.HealthyInterval = 20 * thr
+		fo.ElevatedWriteStallThresholdLag = 50 * thr
+		o.WALFailover = fo
+	}
 	if c.WALMinSyncUs > 0 {
 		d := time.Duration(c.WALMinSyncUs) * time.Microsecond
 		o.WALMinSyncInterval = func() time.Duration { return d }
@@ -403,6 +421,10 @@ func (h *dbHarness) root() {
 		}
 		h.harvestFaultStats(h.disk)
 		h.disk = h.disk.CrashImage(spec)
+		if h.plan.Profile == "failover" {
+			// the devices keep misbehaving across the restart (spent rules stay spent)
+			h.disk.SetFaults(h.plan.Faults)
+		}
 		h.faultsArmed = false
 		h.db = nil
 		if h.pc >= len(h.ops) {
@@ -440,11 +462,16 @@ func (h *dbHarness) drive() {
 	if h.plan.Profile == "files" {
 		h.disk.OnRemove = h.onRemove
 	}
-	h.fmvFloors, h.durScans = nil, nil
+	h.fmvFloors, h.durScans, h.extraForks = nil, nil, nil
 	if v := int(db.FormatMajorVersion()); true {
 		if v < h.fmvSegStart && h.segment > 1 {
 			Violation("fmv", "format major version went from %d to %d across a crash/reopen", h.fmvSegStart, v)
 		}
+		// What the previous incarnations had reported was durable before this
+		// incarnation's first mutation; what this Open reports may be the
+		// result of a ratchet performed by this very Open (a store whose
+		// creation was cut short by an injected error, for example).
+		h.fmvCarried = h.fmvSegStart
 		h.fmvSegStart = v
 		if v > h.fmvMax {
 			h.fmvMax = v
@@ -468,6 +495,7 @@ func (h *dbHarness) drive() {
 		op := &h.ops[h.pc]
 		h.pc++
 		h.exec(op)
+		h.noteUndurableVersion()
 		if h.levelsEach && h.db != nil {
 			h.checkLevels("after " + op.K)
 		}
@@ -502,6 +530,13 @@ func (h *dbHarness) closeDB() (ok bool) {
 	h.closeAllReaders()
 	if h.plan.Profile == "files" {
 		h.checkNoDeadFiles("before Close")
+	}
+	if h.cfg.WALFailover {
+		m := h.db.Metrics()
+		h.count("probe.failover_dir_switches", m.WAL.Failover.DirSwitchCount)
+		if m.WAL.Failover.DirSwitchCount > 0 {
+			h.count("probe.failover_incarnations_with_switch", 1)
+		}
 	}
 	ok = true
 	if err := h.db.Close(); err != nil {
